@@ -452,6 +452,11 @@ class ByDimensionsDatasetRecordStorageManagerUUID(DatasetRecordStorageManager):
         if dynamic_tables is None:
             dynamic_tables = record.make_dynamic_tables()
             self._cache.add_by_dimensions(record.dataset_type.dimensions, dynamic_tables)
+        elif (updated_tables := record.update_dynamic_tables(dynamic_tables)) is not dynamic_tables:
+            # The cached entry came from a dataset type with the same
+            # dimensions that is not a calibration; remember the calibs table.
+            dynamic_tables = updated_tables
+            self._cache.add_by_dimensions(record.dataset_type.dimensions, dynamic_tables)
         if record.dataset_type.dimensions:
             # This query could return multiple rows (one for each tagged
             # collection the dataset is in, plus one for its run collection),
